@@ -16,7 +16,8 @@ EXPLANATION = (
     "R15.3: global/nonlocal declarations have binding handlers.  R15.4: per scope kind, every expression position of "
     "every statement is traversed by a visitor that opens comprehension scopes (else a comprehension there is no "
     "scope), and lambda opens a scope.  R15.5: fields Python evaluates in the enclosing scope are not handed to the "
-    "new scope's visitor; walrus targets in comprehensions bind outside.  R15.6 (=R01.1): class scopes are skipped "
+    "new scope's visitor; walrus targets in comprehensions bind outside.  R15.7: visitors that bind every Name they meet "
+    "without checking ctx never descend into Attribute.value / Subscript.value / Subscript.slice.  R15.6 (=R01.1): class scopes are skipped "
     "by enclosing lookup.  Scope extents and inferred objects are not decided."
 )
 ASSUMPTIONS = [
@@ -262,7 +263,38 @@ def check(ctx, res) -> None:
             "a walrus target inside a comprehension is bound by the comprehension's own visitor (same handler as everywhere else): "
             "Python binds it in the nearest enclosing function/module scope")
 
+    # ---------------- R15.7 target-name collectors stop at attribute / subscript targets
+    load_positions_rule(ctx, res, "R15.7")
+
     # ---------------- R15.6 = R01.1
     from .c01 import class_scope_rule
 
     class_scope_rule(ctx, res, "R15.6")
+
+
+def load_positions_rule(ctx, res, rule: str) -> None:
+    """Shared with C02 (R02.5).  A visitor whose Name handler records a binding WITHOUT looking at node.ctx is only sound
+    on pure targets: under `obj.attr = v` / `obj[i] = v` the Name `obj` is a Load.  Such a visitor must therefore not
+    traverse Attribute.value, Subscript.value or Subscript.slice."""
+    idx = ctx.idx
+    v = vgc_mod.get(ctx)
+    n = 0
+    for W in v.visitor_classes():
+        h = v.handler(W, "Name")
+        if h is None or not (W.startswith("rope.base.pyobjectsdef.") or W.startswith("rope.base.nameanalyze.")):
+            continue
+        binds = any(e.kind == "bind" for e in v.summary(W, h).effects)
+        if not binds:
+            continue
+        checks_ctx = any(isinstance(x, ast.Attribute) and x.attr == "ctx" for x in ast.walk(h.node))
+        if checks_ctx:
+            res.ok(rule, f"{W.split('.')[-1]}|ctx-checked", h.where, "the Name handler looks at node.ctx before binding")
+            continue
+        n += 1
+        r = v.reach(W, ["Name", "Tuple", "List", "Starred", "Attribute", "Subscript"])
+        bad = [f"{c}.{f}" for c, f in (("Attribute", "value"), ("Subscript", "value"), ("Subscript", "slice")) if W in r.reached_by(c, f)]
+        res.add(rule, f"{W.split('.')[-1]}|loads-under-targets", not bad, h.where,
+                "the collector does not descend into the object / index expression of attribute and subscript targets" if not bad else
+                f"{W.split('.')[-1]} binds every Name it meets and descends into {bad}: in `config.host, config.port = pair` (or a for/with target) the "
+                "object name `config` is recorded as assigned in the current scope, shadowing the real global/imported binding for the whole function")
+    res.floor(rule, "ctx-blind name-binding visitors", n, 2)
